@@ -109,7 +109,15 @@ def elig_shard(asm, acc, sh, deadline):
             # assembled as its own program: earlier compress calls of this process defined other constants
             name = 'KC%d' % (h % 7)
             val = e.get('imm', e.get('shamt'))
-            line2 = text32(e, sp, immtext=name)
+            form = (h // 3) % 4
+            immtext = name
+            if 'imm' in e and e['name'] not in ('jal', 'beq', 'bne') and form == 1:
+                immtext = '%%position(%s, 0)' % name          # a constant through %position: still label-independent
+            elif 'imm' in e and e['name'] not in ('jal', 'beq', 'bne', 'lui') and form == 2 and -2048 <= val <= 2047:
+                immtext = '%%lo(%s)' % name
+            if (e['name'] in ('lw', 'sw', 'jalr') and sp % 2) and immtext != name:
+                immtext = name                                   # the imm(reg) spelling takes a single token
+            line2 = text32(e, sp, immtext=immtext)
             if True:
                 src = '%s = %d\n%s\n' % (name, val, line2)
                 lay2 = monitors.layout(asm, src.splitlines(), compress=True)
